@@ -100,7 +100,7 @@ PROPS = {
                       "Why it is open: after a key that left insert mode inside a search, end() has popped the search's Begin and the listener can MERGE "
                       "what the search logs into the entry below the mark (finding D49, a wrong Undo - x y Backspace C-r C-s a a Alt-X C-r Alt-X C-g u "
                       "gives xyx - but no panic: model and code agree); the remaining log then replays to a prefix of the line, which still satisfies "
-                      "UndoLogInv by replayLog_suffix / undoLogInv_of_prefix (proved), but the vi loop invariant itself is not formalized. "
+                      "UndoLogInv by replayLog_suffix / undoLogInv_of_prefix (proved), but the vi loop invariant itself is not formalized (round 15: evaluated on the D47 / D48 / D49 replays - the kept log replays the empty text to the line exactly, in D49 to a proper prefix of it; the invariant to carry and the two missing lemmas are written down in DESIGN C17). "
                       "Lean theorems about the input-queue model (a byte read consumes exactly one byte, fails only on hang-up, waiting "
                       "loses nothing) and an executable model of the whole decoder and editor that is diffed against the real "
                       "Editor::readline on a pseudo-terminal for arbitrary byte streams; the no-panic / no-wedge / no-stall oracle runs "
